@@ -4,9 +4,15 @@ package server
 
 // C08 harness: drives udpSessionManager.feed of /repo's working tree for ONE session id with a fake
 // outbound whose UDP()/CheckUDP() implement a generated predicate over a pool of address strings.
-// Per datagram it records (forwarded to X | dropped | dial failed), whether CheckUDP was consulted,
-// which address was dialed and which cache key the implementation evicted (Go map order: recorded so
-// that the model can be fed the same choice).  It also evaluates the property on the implementation alone.
+// Per datagram it records (forwarded to X | dropped | dial failed), whether CheckUDP was consulted and for
+// which address, which address was dialed and which cache key the implementation evicted (Go map order:
+// recorded so that the model can be fed the same choice).  It also evaluates the property on the implementation alone.
+//
+// Client messages are complete datagrams ([0,...]) or FRAGMENTS ([3,...]) with their own PacketID / FragID /
+// FragCount / Addr: the fragments of one datagram may name different destinations, arrive in any order, be
+// duplicated or abandoned.  Any message may have "the WriteTo of this Feed fails" injected (also the first
+// message of a session, also in hooked sessions): every WriteTo the implementation attempts is logged by the
+// fake socket with its address, successful or not, so a datagram re-sent elsewhere after a failed write is seen.
 
 import (
 	"encoding/json"
@@ -23,7 +29,26 @@ type c08Case struct {
 	Pool    int     `json:"pool"`    // addresses are indices 0..pool-1; index 0 is the empty string
 	Allowed []int   `json:"allowed"` // indices the policy allows
 	Hook    []int   `json:"hook"`    // [0] off | [1,a'] rewrite everything to a' | [2,k,a'] rewrite a with a%k==0 to a' | [3] error
-	Ops     [][]int `json:"ops"`     // [0,a,fault] datagram | [1,r] reply from r | [2] close (idle expiry)
+	Ops     [][]int `json:"ops"`     // [0,a,fault(,werr)] datagram | [1,r] reply from r | [2] close (idle expiry)
+	//                                   [3,a,fault,werr,pid,fid,cnt] message with PacketID pid, FragID fid, FragCount cnt
+}
+
+// c08IO is the fake environment with one addition: a socket handed out by UDP() while a write error is armed
+// fails its first write (the first datagram of a session is written right after the dial, inside the same feed).
+type c08IO struct {
+	*vfEnv
+	armWriteErr bool
+}
+
+func (io *c08IO) UDP(reqAddr string) (UDPConn, error) {
+	c, err := io.vfEnv.UDP(reqAddr)
+	if err == nil && io.armWriteErr {
+		vc := c.(*vfConn)
+		io.vfEnv.mu.Lock()
+		vc.writeErr = 1
+		io.vfEnv.mu.Unlock()
+	}
+	return c, err
 }
 
 func c08Addr(i int) string {
@@ -102,7 +127,8 @@ func c08Run(c c08Case, res map[string]any) {
 		*addr = pool[n]
 		return nil
 	}
-	sm := newUDPSessionManager(env, vfLogger{env}, time.Hour)
+	cio := &c08IO{vfEnv: env}
+	sm := newUDPSessionManager(cio, vfLogger{env}, time.Hour)
 
 	ok, why := true, ""
 	fail := func(s string) {
@@ -124,55 +150,138 @@ func c08Run(c c08Case, res map[string]any) {
 		return ks
 	}
 	// reference bookkeeping for the verdict (independent of the Coq model)
-	live, hooked, ovr, orig := false, false, "", ""
+	//   live: the session has its socket; hooked: 1 the hook rewrote the first destination, 0 it did not,
+	//   2 undecidable (the fragments of the first datagram disagree and only some of them are rewritten)
+	live, hooked, ovr := false, 0, ""
+	origs := map[string]bool{}
+	// reference defragmenter (own transcription of the protocol rule: one packet id at a time, a fragment of
+	// another packet id or count discards what is there, duplicates ignored, complete when all ids 0..cnt-1 are in)
+	rpid, rcnt := 0, 0
+	rgot := map[int]int{} // FragID -> address index
+	rreset := func() { rpid, rcnt, rgot = 0, 0, map[int]int{} }
+	// returns (complete, the addresses named by the fragments of the completed datagram)
+	rfeed := func(pid, fid, cnt, a int) (bool, []int) {
+		if cnt <= 1 {
+			return true, []int{a}
+		}
+		if fid >= cnt {
+			return false, nil
+		}
+		if pid != rpid || cnt != rcnt {
+			rpid, rcnt, rgot = pid, cnt, map[int]int{fid: a}
+			return false, nil
+		}
+		if _, dup := rgot[fid]; dup {
+			return false, nil
+		}
+		rgot[fid] = a
+		if len(rgot) == rcnt {
+			set := make([]int, 0, rcnt)
+			for i := 0; i < rcnt; i++ {
+				set = append(set, rgot[i])
+			}
+			// frag.go keeps the completed fragments until another packet id / count arrives; further
+			// fragments of the same packet are duplicates, which the map already says
+			return true, set
+		}
+		return false, nil
+	}
+	inSet := func(set []int, x int) bool {
+		for _, v := range set {
+			if v == x {
+				return true
+			}
+		}
+		return false
+	}
 	steps := make([][]int, 0, len(c.Ops))
 	seq := int64(0)
 	maxCache := 0
 	for _, op := range c.Ops {
 		switch op[0] {
-		case 0:
+		case 0, 3:
 			a, fault := op[1], op[2] != 0
+			werr := len(op) > 3 && op[3] != 0
+			pid, fid, cnt := 0, 0, 1
+			if op[0] == 3 {
+				pid, fid, cnt = op[4], op[5], op[6]
+			}
 			if fault {
 				env.mu.Lock()
 				env.dialFail = 1
 				env.mu.Unlock()
+			}
+			// arm the write error: on the session's socket if it has one, on the socket the dial of this feed creates otherwise
+			var armed *vfConn
+			if werr {
+				sm.mutex.RLock()
+				ent0 := sm.m[sid]
+				sm.mutex.RUnlock()
+				if ent0 != nil && ent0.conn != nil {
+					armed = ent0.conn.(*vfConn)
+					env.mu.Lock()
+					armed.writeErr = 1
+					env.mu.Unlock()
+				}
+				cio.armWriteErr = true
 			}
 			before := keysOf()
 			m := env.mark()
 			seq++
 			env.mu.Lock()
 			env.curSid = sid
+			nsocks := len(env.socks)
 			env.mu.Unlock()
-			sm.feed(&protocol.UDPMessage{SessionID: sid, FragCount: 1, Addr: pool[a], Data: vfPayload(int64(sid)<<24 | seq)})
+			sm.feed(&protocol.UDPMessage{SessionID: sid, PacketID: uint16(pid), FragID: uint8(fid), FragCount: uint8(cnt),
+				Addr: pool[a], Data: vfPayload(int64(sid)<<24 | seq)})
 			evs := env.since(m)
 			env.mu.Lock()
 			env.dialFail = 0
+			if armed != nil {
+				armed.writeErr = 0
+			}
+			for _, sc := range env.socks[nsocks:] {
+				sc.writeErr = 0
+			}
 			env.mu.Unlock()
+			cio.armWriteErr = false
 			after := keysOf()
 			if len(after) > maxCache {
 				maxCache = len(after)
 			}
-			kind, x, consulted, dialed, hasDial, dialOK := 1, 0, false, 0, false, false
-			nwrites := 0
+			complete, set := rfeed(pid, fid, cnt, a)
+			kind, x, consulted, dialed, hasDial, dialOK, chk := 1, 0, false, 0, false, false, 0
+			nwrites, wfailed := 0, false
+			checkedAddr, hasCheck := "", false
 			for _, ev := range evs {
 				switch ev.K {
 				case "dial":
 					hasDial, dialed, dialOK = true, idx(ev.A), ev.Ok
 				case "check":
-					consulted = true
-					if hooked {
+					consulted, chk = true, idx(ev.A)
+					checkedAddr, hasCheck = ev.A, true
+					if hooked == 1 {
 						fail("CheckUDP consulted in a session whose destination was rewritten by the hook")
 					}
 				case "write":
+					// every attempt counts, whether the socket accepted it or not
 					nwrites++
 					kind, x = 0, idx(ev.A)
+					if !ev.Ok {
+						wfailed = true
+					}
 					if !pred(ev.A) {
-						fail(fmt.Sprintf("datagram forwarded to %q which the outbound policy rejects", ev.A))
+						fail(fmt.Sprintf("datagram handed to WriteTo for %q which the outbound policy rejects", ev.A))
 					}
 				}
 			}
 			if nwrites > 1 {
 				fail("one datagram written more than once")
+			}
+			for _, ev := range evs {
+				if ev.K == "write" && hasCheck && ev.A != checkedAddr {
+					fail(fmt.Sprintf("CheckUDP was consulted for %q but the datagram was handed to WriteTo for %q", checkedAddr, ev.A))
+				}
 			}
 			sm.mutex.RLock()
 			ent := sm.m[sid]
@@ -190,34 +299,103 @@ func c08Run(c c08Case, res map[string]any) {
 				}
 			}
 			// verdict on the implementation alone
-			if !live {
-				n, bad := hookOf(a)
-				if !bad && pred(pool[n]) && !fault {
-					live = true
-					hooked = n != a
-					if hooked {
-						ovr, orig = pool[n], pool[a]
-					} else {
-						ovr, orig = "", ""
+			if !complete {
+				if nwrites != 0 || hasDial || consulted {
+					fail("a fragment that completes no datagram caused a dial, a policy query or a write")
+				}
+			} else {
+				if !live {
+					// the first complete datagram of the session: the destination dialed must be what the hook makes of
+					// an address named by the datagram's fragments; the fake outbound's own answer says whether it is up
+					nRew, nKeep := 0, 0
+					for _, c0 := range set {
+						n, bad := hookOf(c0)
+						if !bad && hasDial && n == dialed {
+							if n != c0 {
+								nRew++
+							} else {
+								nKeep++
+							}
+						}
+					}
+					if hasDial && nRew+nKeep == 0 {
+						fail("the session dialed a destination that is not what the hook makes of any address in the datagram")
+					}
+					if hasDial && dialOK {
+						if !pred(pool[dialed]) || fault {
+							fail("harness: the fake outbound accepted a dial it must refuse")
+						}
+						live, ovr = true, pool[dialed]
+						origs = map[string]bool{}
+						switch {
+						case nKeep == 0:
+							hooked = 1
+							for _, c0 := range set {
+								if n, bad := hookOf(c0); !bad && n == dialed {
+									origs[pool[c0]] = true
+								}
+							}
+						case nRew == 0:
+							hooked = 0
+						default:
+							hooked = 2
+							for _, c0 := range set {
+								if n, bad := hookOf(c0); !bad && n == dialed && n != c0 {
+									origs[pool[c0]] = true
+								}
+							}
+						}
+					}
+					if !live && nwrites > 0 {
+						fail("datagram forwarded although the dial of the first destination was refused")
+					}
+					if !live && len(set) == 1 {
+						if n, bad := hookOf(a); !bad && pred(pool[n]) && !fault {
+							fail("the session did not come up although hook and outbound accept its first destination")
+						}
 					}
 				}
-				if !live && nwrites > 0 {
-					fail("datagram forwarded although the dial of the first destination was refused")
+				if live {
+					switch hooked {
+					case 1:
+						if nwrites != 1 || x >= len(pool) || pool[x] != ovr {
+							fail("hooked session: datagram not handed to WriteTo for the rewritten destination (and only for it)")
+						}
+					case 0:
+						if nwrites > 0 && !inSet(set, x) {
+							fail("datagram written to a destination that none of its fragments names")
+						}
+						if len(set) == 1 {
+							if pred(pool[a]) && (nwrites != 1 || x != a) {
+								fail("destination allowed by the policy was not forwarded")
+							}
+							if !pred(pool[a]) && nwrites != 0 {
+								fail("destination rejected by the policy received a datagram")
+							}
+						} else {
+							allOK, noneOK := true, true
+							for _, c0 := range set {
+								if pred(pool[c0]) {
+									noneOK = false
+								} else {
+									allOK = false
+								}
+							}
+							if allOK && nwrites != 1 {
+								fail("every destination named by the datagram's fragments is allowed, yet it was not forwarded")
+							}
+							if noneOK && nwrites != 0 {
+								fail("no destination named by the datagram's fragments is allowed, yet it was written")
+							}
+						}
+					default:
+						if nwrites > 0 && !inSet(set, x) && pool[x] != ovr {
+							fail("datagram written to a destination that is neither named by its fragments nor the rewritten one")
+						}
+					}
 				}
-				_ = dialOK
-			}
-			if live {
-				if hooked {
-					if nwrites != 1 || x >= len(pool) || pool[x] != ovr {
-						fail("hooked session: datagram not forwarded to the rewritten destination")
-					}
-				} else {
-					if pred(pool[a]) && (nwrites != 1 || x != a) {
-						fail("destination allowed by the policy was not forwarded")
-					}
-					if !pred(pool[a]) && nwrites != 0 {
-						fail("destination rejected by the policy received a datagram")
-					}
+				if werr && nwrites == 1 && !wfailed {
+					fail("harness: the injected write error did not reach the socket")
 				}
 			}
 			code := kind
@@ -233,7 +411,17 @@ func c08Run(c c08Case, res map[string]any) {
 			if hasDial {
 				code += 32
 			}
-			steps = append(steps, []int{code, x, evicted, dialed})
+			if werr {
+				code += 64
+			}
+			if wfailed {
+				code += 128
+			}
+			if kind == 2 {
+				// the entry is gone, and with it its Defragger
+				rreset()
+			}
+			steps = append(steps, []int{code, x, evicted, dialed, chk})
 		case 1:
 			sm.mutex.RLock()
 			ent := sm.m[sid]
@@ -251,12 +439,13 @@ func c08Run(c c08Case, res map[string]any) {
 			for _, ev := range env.since(m) {
 				if ev.K == "send" {
 					got, x = true, idx(ev.A)
-					want := pool[op[1]]
-					if hooked {
-						want = orig
-					}
-					if ev.A != want {
-						fail(fmt.Sprintf("reply reported from %q, expected %q", ev.A, want))
+					switch {
+					case hooked == 1 && !origs[ev.A]:
+						fail(fmt.Sprintf("reply of a hooked session reported from %q, not from the destination the client asked for", ev.A))
+					case hooked == 0 && ev.A != pool[op[1]]:
+						fail(fmt.Sprintf("reply reported from %q, expected %q", ev.A, pool[op[1]]))
+					case hooked == 2 && ev.A != pool[op[1]] && !origs[ev.A]:
+						fail(fmt.Sprintf("reply reported from %q", ev.A))
 					}
 					if ev.Sid != sid {
 						fail("reply tagged with a foreign session id")
@@ -272,7 +461,9 @@ func c08Run(c c08Case, res map[string]any) {
 		case 2:
 			sm.cleanup(false)
 			synctest.Wait()
-			live, hooked, ovr, orig = false, false, "", ""
+			live, hooked, ovr = false, 0, ""
+			origs = map[string]bool{}
+			rreset()
 			steps = append(steps, []int{})
 		}
 	}
